@@ -328,8 +328,12 @@ func (w *World) monProposals(n *node, kind string, in *pb.Message, pre, post *ra
 	case kind == "propose":
 		isProp = true
 		want = m.curPayloads
-		for range want {
-			wantTypes = append(wantTypes, pb.EntryNormal)
+		if m.curTypes != nil {
+			wantTypes = m.curTypes
+		} else {
+			for range want {
+				wantTypes = append(wantTypes, pb.EntryNormal)
+			}
 		}
 	case kind == "proposecc":
 		isProp = true
@@ -495,6 +499,9 @@ func (w *World) monReads(n *node, kind string, in *pb.Message, pre, post *raft.V
 // finalChecks runs once per world after the schedule (and heal suffix).
 func (w *World) finalChecks() {
 	m := w.mon
+	for _, id := range w.ids {
+		w.checkHandedConfStates(w.nodes[id])
+	}
 	// C20: duplicates within one log
 	for _, id := range w.ids {
 		n := w.nodes[id]
